@@ -47,6 +47,9 @@ type sideConn struct {
 	readMu    sync.Mutex
 	curReader io.Reader
 
+	deadlineMu    sync.Mutex
+	writeDeadline time.Time
+
 	closeOnce sync.Once
 	closed    chan struct{}
 }
@@ -116,6 +119,7 @@ func (c *sideConn) Read(buf []byte) (int, error) {
 func (c *sideConn) Write(buf []byte) (int, error) {
 	c.writeMu.Lock()
 	defer c.writeMu.Unlock()
+	c.applyWriteDeadline()
 	const chunk = 4096
 
 	if c.writeClosed {
@@ -157,6 +161,7 @@ func (c *sideConn) CloseWrite() error {
 		return nil
 	}
 	c.writeClosed = true
+	c.applyWriteDeadline()
 
 	w, err := c.NextWriter(websocket.TextMessage)
 	if err != nil {
@@ -168,9 +173,30 @@ func (c *sideConn) CloseWrite() error {
 	return w.Close()
 }
 
+// SetWriteDeadline may be called concurrently with Write, CloseWrite and
+// Close (as net.Conn allows). The websocket's own write deadline must not be
+// set while another goroutine writes, so the deadline is recorded here and
+// applied by the writers, which hold writeMu; a write that is in flight is
+// bounded on the network connection.
+func (c *sideConn) SetWriteDeadline(d time.Time) error {
+	c.deadlineMu.Lock()
+	c.writeDeadline = d
+	c.deadlineMu.Unlock()
+	return c.Conn.UnderlyingConn().SetWriteDeadline(d)
+}
+
+// applyWriteDeadline hands the recorded deadline to the websocket. The caller
+// holds writeMu.
+func (c *sideConn) applyWriteDeadline() {
+	c.deadlineMu.Lock()
+	d := c.writeDeadline
+	c.deadlineMu.Unlock()
+	c.Conn.SetWriteDeadline(d)
+}
+
 func (c *sideConn) SetDeadline(d time.Time) error {
 	rerr := c.Conn.SetReadDeadline(d)
-	werr := c.Conn.SetWriteDeadline(d)
+	werr := c.SetWriteDeadline(d)
 	if rerr != nil {
 		return rerr
 	}
